@@ -104,6 +104,38 @@ theorem root_fold (c : Cfg) (ws : List PM) (m : M) :
         · have := h2 w' hw'
           simpa using this
 
+
+/-- as `root_fold`, recording that a root is only queried when it was not "active" -/
+theorem root_fold' (c : Cfg) (ws : List PM) (m : M) :
+    ∃ qs, ws.foldl (rootStep c) m = { m with active := m.active ++ qs } ∧
+      (∀ q ∈ qs, ∃ w ∈ ws, q = query (rootOf c w.plug) ∧ plugActive m (rootOf c w.plug) w.cmd = false) := by
+  induction ws generalizing m with
+  | nil => exact ⟨[], by simp⟩
+  | cons w ws ih =>
+    rw [List.foldl_cons]
+    by_cases ha : plugActive m (rootOf c w.plug) w.cmd = true
+    · have e : rootStep c m w = m := by simp [rootStep, ha]
+      rw [e]
+      obtain ⟨qs, e1, h1⟩ := ih m
+      refine ⟨qs, e1, ?_⟩
+      intro q hq; obtain ⟨w', hw', r⟩ := h1 q hq; exact ⟨w', List.mem_cons_of_mem _ hw', r⟩
+    · have e : rootStep c m w = { m with active := m.active ++ [query (rootOf c w.plug)] } := by
+        simp [rootStep, ha, query]
+      rw [e]
+      obtain ⟨qs, e1, h1⟩ := ih { m with active := m.active ++ [query (rootOf c w.plug)] }
+      refine ⟨query (rootOf c w.plug) :: qs, ?_, ?_⟩
+      · rw [e1]; simp
+      · intro q hq
+        rcases List.mem_cons.1 hq with rfl | hq
+        · exact ⟨w, by simp, rfl, by simpa using ha⟩
+        · obtain ⟨w', hw', r2, r3⟩ := h1 q hq
+          refine ⟨w', List.mem_cons_of_mem _ hw', r2, ?_⟩
+          cases hpa : plugActive m (rootOf c w'.plug) w'.cmd
+          · rfl
+          · have := plugActive_mono m _ _ [query (rootOf c w.plug)]
+              { m with active := m.active ++ [query (rootOf c w.plug)] } rfl hpa
+            rw [this] at r3; cases r3
+
 theorem depth_lt {c : Cfg} (hw : WF c = true) {p : Nat} (h : known c p = true) : depth c p < c.plugs.length :=
   WF_len hw h
 
